@@ -29,7 +29,7 @@ tvars == <<hvars, tid, k, obs>>
 TInit == tid = 1 /\ k = 1 /\ obs = <<>> /\ HInit("-")
 
 \* the abstract digest of the call that comes next
-NextDigest == IF Ev.op = "summary" THEN NatDigest ELSE Digest(Ev.est, Ev.arg, Ev.fresh)
+NextDigest == IF Ev.op = "summary" THEN NatDigest(Ev.sarg) ELSE Digest(Ev.est, Ev.arg, Ev.fresh)
 Bind(d) == obs' = [x \in DOMAIN obs \cup {d} |-> IF x \in DOMAIN obs THEN obs[x] ELSE [tok |-> Ev.tok, p |-> Ev.p, hash |-> Ev.hash]]
 
 TNext ==
@@ -37,7 +37,7 @@ TNext ==
      /\ k' = k + 1 /\ tid' = tid
      /\ CASE Ev.op = "process" -> NewProcess(Ev.hash) /\ obs' = obs
           [] Ev.op = "est"     -> GetEstimates(Ev.est, Ev.arg, Ev.fresh) /\ Bind(Digest(Ev.est, Ev.arg, Ev.fresh))
-          [] Ev.op = "summary" -> NatSummary /\ Bind(NatDigest)
+          [] Ev.op = "summary" -> NatSummary(Ev.sarg) /\ Bind(NatDigest(Ev.sarg))
   \/ /\ k > Len(Events) /\ tid < NT
      /\ tid' = tid + 1 /\ k' = 1 /\ obs' = <<>>
      /\ proc' = [id |-> 1, hash |-> "-", defaults |-> Pristine]
